@@ -55,6 +55,7 @@ var (
 	mapRanges   = map[string]bool{}
 	mapRewrites int
 	blockWraps  int // statements bracketed as possibly blocking (channel ops, Cond/WaitGroup)
+	goRewrites  int
 	goStmts     int // go statements in the tree under test (their goroutines are not scheduled by the simulator)
 )
 
@@ -288,9 +289,21 @@ func main() {
 			ins = append(ins, insertion{off: b, text: "\x00" + fmt.Sprint(e-b) + "\x00" + hdr, ord: 1 << 30})
 			return true
 		})
+		// `go func() { ... }()` becomes a child task of the simulator; other forms
+		// of the go statement are left alone (counted, reported)
 		ast.Inspect(f, func(n ast.Node) bool {
-			if _, ok := n.(*ast.GoStmt); ok {
-				goStmts++
+			gs, ok := n.(*ast.GoStmt)
+			if !ok {
+				return true
+			}
+			goStmts++
+			if _, isLit := gs.Call.Fun.(*ast.FuncLit); isLit && len(gs.Call.Args) == 0 {
+				b := fset.Position(gs.Go).Offset
+				ins = append(ins, insertion{off: b, text: "\x002\x00verifGo(", ord: 1 << 30})
+				lp := fset.Position(gs.Call.Lparen).Offset
+				rp := fset.Position(gs.Call.Rparen).Offset
+				ins = append(ins, insertion{off: lp, text: "\x00" + fmt.Sprint(rp+1-lp) + "\x00)", ord: 1 << 30})
+				goRewrites++
 			}
 			return true
 		})
@@ -332,7 +345,7 @@ func main() {
 	writeHooks(*dir, pkgName)
 	writeRaceShims(*dir, pkgName)
 	writeAccess(*dir, pkgName, globals, hasBigIntInner && hasNegSentinel)
-	fmt.Printf("instr: %d files, %d yield sites, %d package-level vars, %d sync.{Pool,Mutex,RWMutex} rewrites, %d map-range rewrites, %d blocking statements bracketed, knobs=%v\n", len(files), len(sites), len(globals), poolRewrites, mapRewrites, blockWraps, knobApplied)
+	fmt.Printf("instr: %d files, %d yield sites, %d package-level vars, %d sync.{Pool,Mutex,RWMutex} rewrites, %d map-range rewrites, %d blocking statements bracketed, %d of %d go statements rewritten, knobs=%v\n", len(files), len(sites), len(globals), poolRewrites, mapRewrites, blockWraps, goRewrites, goStmts, knobApplied)
 }
 
 func fatal(err error) {
@@ -736,6 +749,19 @@ func verifUnblock(addr unsafe.Pointer) {
 	if VerifWake != nil {
 		VerifWake(addr)
 	}
+}
+
+// VerifGo starts fn as a child task of the simulator (a go statement of the
+// tree under test).
+var VerifGo func(fn func())
+
+//go:norace
+func verifGo(fn func()) {
+	if VerifGo != nil {
+		VerifGo(fn)
+		return
+	}
+	go fn()
 }
 
 // VerifBkEnter / VerifBkLeave bracket simple statements that may park the task
